@@ -50,7 +50,7 @@ type wMsgHead struct {
 	Enums    []wEnum  `json:"enums"`
 	Oneofs   []string `json:"oneofs"`
 	Exts     []wField `json:"exts"`
-	extRange bool     // has an extension range [1000, 536870912) (harness only)
+	ExtRange bool     `json:"extRange"` // has an extension range [1000, 536870912) (not read by the model)
 }
 type wMsg struct {
 	Head   wMsgHead `json:"head"`
@@ -78,6 +78,7 @@ type wWorld struct {
 	Targets []string `json:"targets"`
 	Bidi    bool     `json:"bidi"`
 	FDSet   bool     `json:"fdset"` // entry point ProcessFileDescriptorSet* (harness only; targets are then empty)
+	Probes  []string `json:"probes"`  // C02: names to look up
 }
 
 type ref struct {
@@ -149,7 +150,7 @@ func (b *built) msg(m wMsg, r ref) *descriptor.DescriptorProto {
 	if m.Head.MapEntry {
 		md.Options = &descriptor.MessageOptions{MapEntry: proto.Bool(true)}
 	}
-	if m.Head.extRange {
+	if m.Head.ExtRange {
 		md.ExtensionRange = []*descriptor.DescriptorProto_ExtensionRange{{Start: proto.Int32(1000), End: proto.Int32(536870912)}}
 	}
 	for i, f := range m.Head.Fields {
@@ -269,17 +270,50 @@ type worldGen struct {
 	extNum int
 	msgs   []declMsg
 	enums  []declEnum
-	names  func(kind string) string
+	used   map[string]bool
+	pooled bool // draw names from small pools, unique per scope only
+	long   bool // pad names so that qualified names reach 100-300 bytes
 	// needZero: only enums whose first value is 0 may be picked (map values)
 	needZero bool
 }
 
-func (wg *worldGen) fresh(prefix string) string {
+var namePools = map[string][]string{
+	"M": {"Item", "Tag", "Node", "Info", "Data"}, "E": {"Kind", "State", "Color"}, "V": {"UNKNOWN", "FIRST", "SECOND", "THIRD", "OTHER"},
+	"f": {"id", "name", "value", "item", "tag", "next", "data"}, "of": {"a", "b", "c", "d", "e"}, "o": {"choice", "kind_of", "which"},
+	"mp": {"labels", "index", "attrs"}, "x": {"tag", "ext", "note"}, "S": {"Api", "Admin"}, "Rpc": {"Get", "Put", "List"},
+}
+
+// fresh returns a name that is new in `scope` (a package or message scope: protobuf keeps one
+// namespace per scope for messages, enums, enum values, fields, oneofs and extensions).
+// In pooled mode names repeat across scopes (Cart.Item / Invoice.Item, a.tag / a.Scope.tag).
+func (wg *worldGen) fresh(prefix, scope string) string {
 	wg.n++
-	if wg.names != nil {
-		return wg.names(prefix)
+	if wg.used == nil {
+		wg.used = map[string]bool{}
 	}
-	return fmt.Sprintf("%s%d", prefix, wg.n)
+	if wg.pooled {
+		pool := namePools[prefix]
+		for try := 0; try < 6 && len(pool) > 0; try++ {
+			n := pool[wg.r.Intn(len(pool))]
+			if wg.long {
+				n += strings.Repeat("x", wg.r.Intn(30))
+			}
+			if prefix == "V" {
+				n = n + fmt.Sprint("_", wg.n%7) // enum values also live in the enum's parent scope
+			}
+			if !wg.used[scope+"\x00"+n] && !wg.used[scope+"\x00"+strings.ToLower(n)] {
+				wg.used[scope+"\x00"+n] = true
+				wg.used[scope+"\x00"+strings.ToLower(n)] = true
+				return n
+			}
+		}
+	}
+	n := fmt.Sprintf("%s%d", prefix, wg.n)
+	if wg.long {
+		n += strings.Repeat("y", wg.r.Intn(40))
+	}
+	wg.used[scope+"\x00"+n] = true
+	return n
 }
 
 func camelOfField(name string) string {
@@ -312,7 +346,7 @@ func fqnJoin(scope, name string) string { return scope + "." + name }
 
 // genWorld builds a world that protobuf's validation accepts by construction.
 func genWorld(r *rand.Rand, o genOpts) wWorld {
-	wg := &worldGen{r: r, extNum: 1000}
+	wg := &worldGen{r: r, extNum: 1000, pooled: r.Intn(2) == 0, long: r.Intn(6) == 0}
 	nf := 1 + r.Intn(o.maxFiles)
 	pkgs := []string{"", "a", "a.b", "c"}
 	var w wWorld
@@ -371,21 +405,21 @@ func genWorld(r *rand.Rand, o genOpts) wWorld {
 		}
 		if !proto3 {
 			for k := r.Intn(3); k > 0; k-- {
-				if x, ok := wg.genExt(fi, proto3, visible[fi]); ok {
+				if x, ok := wg.genExt(scope, fi, proto3, visible[fi]); ok {
 					fp.Exts = append(fp.Exts, x)
 				}
 			}
 		}
 		ns := r.Intn(3)
 		for i := 0; i < ns; i++ {
-			s := wService{Name: wg.fresh("S"), Methods: []wMethod{}}
+			s := wService{Name: wg.fresh("S", scope), Methods: []wMethod{}}
 			for k := r.Intn(4); k > 0; k-- {
 				in, ok1 := wg.pickMsg(fi, visible[fi], false)
 				out, ok2 := wg.pickMsg(fi, visible[fi], false)
 				if !ok1 || !ok2 {
 					break
 				}
-				s.Methods = append(s.Methods, wMethod{Name: wg.fresh("Rpc"), Input: in.fqn, Output: out.fqn, CS: r.Intn(3) == 0, SS: r.Intn(3) == 0})
+				s.Methods = append(s.Methods, wMethod{Name: wg.fresh("Rpc", scope+"."+s.Name), Input: in.fqn, Output: out.fqn, CS: r.Intn(3) == 0, SS: r.Intn(3) == 0})
 			}
 			fp.Services = append(fp.Services, s)
 		}
@@ -419,7 +453,7 @@ func genWorld(r *rand.Rand, o genOpts) wWorld {
 }
 
 func (wg *worldGen) genEnum(scope string, fi int, proto3 bool) wEnum {
-	e := wEnum{Name: wg.fresh("E")}
+	e := wEnum{Name: wg.fresh("E", scope)}
 	nv := 1 + wg.r.Intn(3)
 	sparse := !proto3 && wg.r.Intn(3) == 0
 	for i := 0; i < nv; i++ {
@@ -427,7 +461,7 @@ func (wg *worldGen) genEnum(scope string, fi int, proto3 bool) wEnum {
 		if sparse {
 			num = int32(i*7 + 1)
 		}
-		e.Values = append(e.Values, wEnumVal{wg.fresh("V"), num})
+		e.Values = append(e.Values, wEnumVal{wg.fresh("V", scope), num})
 	}
 	wg.enums = append(wg.enums, declEnum{fqnJoin(scope, e.Name), fi, proto3, !sparse})
 	return e
@@ -435,10 +469,10 @@ func (wg *worldGen) genEnum(scope string, fi int, proto3 bool) wEnum {
 
 // declMsgTree declares a message with its nested ordinary messages and enums (no fields yet).
 func (wg *worldGen) declMsgTree(scope string, fi int, proto3 bool, depth int) wMsg {
-	m := wMsg{Head: wMsgHead{Name: wg.fresh("M"), Fields: []wField{}, Enums: []wEnum{}, Oneofs: []string{}, Exts: []wField{}}, Nested: []wMsg{}}
+	m := wMsg{Head: wMsgHead{Name: wg.fresh("M", scope), Fields: []wField{}, Enums: []wEnum{}, Oneofs: []string{}, Exts: []wField{}}, Nested: []wMsg{}}
 	fqn := fqnJoin(scope, m.Head.Name)
-	m.Head.extRange = !proto3 && wg.r.Intn(3) == 0
-	wg.msgs = append(wg.msgs, declMsg{fqn, fi, false, m.Head.extRange, proto3})
+	m.Head.ExtRange = !proto3 && wg.r.Intn(3) == 0
+	wg.msgs = append(wg.msgs, declMsg{fqn, fi, false, m.Head.ExtRange, proto3})
 	for k := wg.r.Intn(2); k > 0; k-- {
 		m.Head.Enums = append(m.Head.Enums, wg.genEnum(fqn, fi, proto3))
 	}
@@ -516,7 +550,7 @@ func (wg *worldGen) fillMsg(m *wMsg, scope string, fi int, proto3 bool, vis map[
 	var synthetic []int // indices of proto3-optional fields
 	addField := func(f wField) { m.Head.Fields = append(m.Head.Fields, f) }
 	plain := func() {
-		f := wField{Name: wg.fresh("f"), Number: next(), Label: 1}
+		f := wField{Name: wg.fresh("f", fqn), Number: next(), Label: 1}
 		switch r := wg.r.Intn(10); {
 		case r < 2:
 			f.Label = 3
@@ -531,7 +565,7 @@ func (wg *worldGen) fillMsg(m *wMsg, scope string, fi int, proto3 bool, vis map[
 		addField(f)
 	}
 	mapField := func() {
-		f := wField{Name: wg.fresh("mp"), Number: next(), Label: 3, Type: tMessage}
+		f := wField{Name: wg.fresh("mp", fqn), Number: next(), Label: 3, Type: tMessage}
 		entry := wMsg{Head: wMsgHead{Name: camelOfField(f.Name), MapEntry: true, Enums: []wEnum{}, Oneofs: []string{}, Exts: []wField{}}, Nested: []wMsg{}}
 		k := wField{Name: "key", Number: 1, Label: 1, Type: mapKeyKinds[wg.r.Intn(len(mapKeyKinds))]}
 		v := wField{Name: "value", Number: 2, Label: 1}
@@ -540,6 +574,7 @@ func (wg *worldGen) fillMsg(m *wMsg, scope string, fi int, proto3 bool, vis map[
 		wg.needZero = false
 		entry.Head.Fields = []wField{k, v}
 		f.TypeName = fqnJoin(fqn, entry.Head.Name)
+		wg.used[fqn+"\x00"+entry.Head.Name] = true
 		// the entry type is interleaved among the ordinary nested types
 		pos := wg.r.Intn(len(m.Nested) + 1)
 		m.Nested = append(m.Nested[:pos], append([]wMsg{entry}, m.Nested[pos:]...)...)
@@ -558,10 +593,10 @@ func (wg *worldGen) fillMsg(m *wMsg, scope string, fi int, proto3 bool, vis map[
 		}
 	}
 	for oi := 0; oi < nReal; oi++ {
-		m.Head.Oneofs = append(m.Head.Oneofs, wg.fresh("o"))
+		m.Head.Oneofs = append(m.Head.Oneofs, wg.fresh("o", fqn))
 		idx := oi
 		for k := 1 + wg.r.Intn(3); k > 0; k-- {
-			f := wField{Name: wg.fresh("of"), Number: next(), Label: 1, OneofIndex: &idx}
+			f := wField{Name: wg.fresh("of", fqn), Number: next(), Label: 1, OneofIndex: &idx}
 			wg.typed(&f, fi, vis, proto3)
 			addField(f)
 		}
@@ -580,20 +615,20 @@ func (wg *worldGen) fillMsg(m *wMsg, scope string, fi int, proto3 bool, vis map[
 	}
 	if !proto3 {
 		for k := wg.r.Intn(4); k > 2; k-- {
-			if x, ok := wg.genExt(fi, proto3, vis); ok {
+			if x, ok := wg.genExt(fqn, fi, proto3, vis); ok {
 				m.Head.Exts = append(m.Head.Exts, x)
 			}
 		}
 	}
 }
 
-func (wg *worldGen) genExt(fi int, proto3 bool, vis map[int]bool) (wField, bool) {
+func (wg *worldGen) genExt(scope string, fi int, proto3 bool, vis map[int]bool) (wField, bool) {
 	target, ok := wg.pickMsg(fi, vis, true)
 	if !ok {
 		return wField{}, false
 	}
 	wg.extNum++
-	x := wField{Name: wg.fresh("x"), Number: wg.extNum, Label: 1, Extendee: target.fqn}
+	x := wField{Name: wg.fresh("x", scope), Number: wg.extNum, Label: 1, Extendee: target.fqn}
 	if wg.r.Intn(3) == 0 {
 		x.Label = 3
 	}
@@ -660,7 +695,7 @@ func genLocs(r *rand.Rand, f *wFile) {
 		for i := range m.Head.Oneofs {
 			add(append(append([]int{}, path...), 8, i)...)
 		}
-		if m.Head.extRange {
+		if m.Head.ExtRange {
 			add(append(append([]int{}, path...), 5, 0)...)
 			add(append(append([]int{}, path...), 5, 0, 1)...)
 		}
